@@ -17,7 +17,6 @@ struct CfgBaseMorton : CfgCommon {
     static constexpr bool periodic = false;
     static constexpr bool canRebuild = true;
     static constexpr bool hasCounters = false;
-    template <class PK> using TopAlgo = NoTop;
 };
 struct CfgWeight : CfgBaseMorton {
     using Inner = WeightKernel<Real, Space>;
@@ -49,7 +48,6 @@ struct CfgWeightFloat : CfgCommon {
     static constexpr bool periodic = false;
     static constexpr bool canRebuild = true;
     static constexpr bool hasCounters = false;
-    template <class PK> using TopAlgo = NoTop;
     using Inner = WeightKernel<Real, Space>;
     using Rhs = unsigned long;
     static constexpr long NbRhs = 2;
